@@ -1,5 +1,141 @@
-(* Eval19.v — evaluation of C19 observations (stub: replaced when C19 is built). *)
-From Verif Require Import Base Sexp.
+(* Eval19.v — evaluation of C19 observations: histories of the generated channel combinators
+   observed on the real Go runtime, checked against the specification (exactly once, per-input
+   order, closed once, no panic, no leak, no deadlock) and against the model (the expected IR
+   run by the executable semantics: for the join forms a guided search for a schedule of the
+   model that produces exactly the observed output sequence = trace inclusion).
+
+   line:  (hist KIND (NVAR GOMAXPROCS OUTERCAP) ((CAP ITEM ...) ...) ((OUT ...) ...) (CLOSED ...) PANIC LEAKED TIMEDOUT) *)
+From Coq Require Import FSets.FSetPositive.
+From Verif Require Import Base Sexp Chan.Sem Chan.Expected Chan.Explore.
 Open Scope string_scope.
 
-Definition eval19 (e : sexp) : verdict := bad_line.
+Definition f19 (x : nat) : nat := x + 1000.
+
+(* ---------- guided search: can the model deliver exactly [target] to consumer [ci]? ---------- *)
+Fixpoint is_prefix (a b : list nat) : bool :=
+  match a, b with
+  | [], _ => true
+  | x :: a', y :: b' => Nat.eqb x y && is_prefix a' b'
+  | _ :: _, [] => false
+  end.
+
+Record gstate := { g_seen : PositiveSet.t; g_found : bool; g_budget : nat }.
+
+Section Guided.
+Variable P : list prog.
+Variable ci : nat.
+Variable target : list nat.
+
+Fixpoint gdfs (fuel : nat) (s : state) (st : gstate) : gstate :=
+  if g_found st then st else
+  match g_budget st with
+  | O => st
+  | S bud =>
+    let k := encode s in
+    if PositiveSet.mem k (g_seen st) then st else
+    let st := {| g_seen := PositiveSet.add k (g_seen st); g_found := false; g_budget := bud |} in
+    if panicked s then st else
+    if negb (is_prefix (cons_log s ci) target) then st else
+    match fuel with
+    | O => st
+    | S fuel' =>
+      match enabled f19 P s with
+      | [] => if all_halted P s && list_eqb (cons_log s ci) target && cons_done s ci
+              then {| g_seen := g_seen st; g_found := true; g_budget := g_budget st |}
+              else st
+      | acts =>
+          fold_left (fun st a =>
+            if g_found st then st else
+            match step f19 P s a with
+            | Some s' => gdfs fuel' s' st
+            | None => st
+            end) acts st
+      end
+    end
+  end.
+End Guided.
+
+(* Some true: the model has a complete run with this output; Some false: it has none;
+   None: search budget exhausted *)
+Definition model_produces (k : kind) (d : fn) (cfg : config) (ci : nat) (target : list nat) : option bool :=
+  let r := gdfs (fn_progs d) ci target (100 * 100) (init_state k d cfg)
+                {| g_seen := PositiveSet.empty; g_found := false; g_budget := 100 * 200 |} in
+  if g_found r then Some true else
+  match g_budget r with O => None | _ => Some false end.
+
+(* ---------- parsing ---------- *)
+Definition get_nats (e : sexp) : option (list nat) := option_map (map Z.to_nat) (get_zs e).
+
+Definition get_input (e : sexp) : option (nat * list nat) :=
+  match get_nats e with
+  | Some (c :: items) => Some (c, items)
+  | _ => None
+  end.
+
+Fixpoint nodup_nat (l : list nat) : bool :=
+  match l with
+  | [] => true
+  | x :: t => negb (mem_nat x t) && nodup_nat t
+  end.
+
+Definition cls (n : nat) : string :=
+  match n with 0 => "0" | 1 => "1" | 2 => "2" | 3 => "3" | _ => "4+" end%nat.
+Definition pcls (n : nat) : string :=
+  match n with 1 => "P1" | 4 => "P4" | 16 => "P16" | _ => "P?" end%nat.
+
+Definition nats_sexp (l : list nat) : sexp := L (map of_nat l).
+
+Definition all_one (l : list nat) : bool := forallb (Nat.eqb 1) l.
+
+Definition eval19 (e : sexp) : verdict :=
+  match e with
+  | L [Sym h; Sym kd; hdr; L ins; L outs; closed; pn; lk; tm] =>
+      if negb (String.eqb h "hist") then bad_line else
+      match get_nats hdr, map_opt get_input ins, map_opt get_nats outs, get_nats closed,
+            get_nat pn, get_nat lk, get_nat tm with
+      | Some [nvar; procs; outer], Some inputs, Some os, Some cl, Some pnc, Some leak, Some tmo =>
+          let lists := map snd inputs in
+          let n := List.length inputs in
+          let clean := Nat.eqb pnc 0 && Nat.eqb leak 0 && Nat.eqb tmo 0 && all_one cl
+                       && Nat.eqb (List.length cl) (List.length os) in
+          let guard := nodup_nat (concat lists) && forallb (fun x => Nat.ltb x 1000) (concat lists) in
+          let cfg := {| c_inputs := inputs; c_outer := outer |} in
+          let tag := kd ++ "/n" ++ cls n ++ "/items" ++ cls (List.length (concat lists)) ++ "/" ++ pcls procs in
+          let mkv (spec model : bool) (m : sexp) (t : string) :=
+            {| v_known := true; v_model_ok := model; v_spec_ok := spec; v_guard := guard;
+               v_model := m; v_tag := t |} in
+          let exact (expect : list (list nat)) :=
+            let okb := clean && (fix eqs (a b : list (list nat)) : bool :=
+                                   match a, b with
+                                   | [], [] => true
+                                   | x :: a', y :: b' => list_eqb x y && eqs a' b'
+                                   | _, _ => false
+                                   end) os expect in
+            mkv okb okb (L (map nats_sexp expect)) tag in
+          let join (k : kind) (d : fn) (ci : nat) (with_model : bool) :=
+            match os with
+            | [o] =>
+                let spec := clean && interleaved o lists in
+                let m := L [Sym "interleaving-of"; L (map nats_sexp lists)] in
+                if with_model && spec then
+                  match model_produces k d cfg ci o with
+                  | Some b => mkv spec b m (tag ++ "/model-trace")
+                  | None => mkv spec spec m (tag ++ "/model-budget")
+                  end
+                else mkv spec spec m tag
+            | _ => mkv false false (Sym "one-output") tag
+            end in
+          if String.eqb kd "fmap" then
+            match lists with [xs] => exact [map f19 xs] | _ => bad_line end
+          else if String.eqb kd "dup" then
+            match lists with [xs] => exact [xs; xs] | _ => bad_line end
+          else if String.eqb kd "joincc" then join KJoinCC exp_join_cc 2%nat true
+          else if String.eqb kd "joinsl" then join KJoinSl exp_join_sl 1%nat true
+          else if String.eqb kd "joinvar" then
+            if Nat.eqb nvar n then join KJoinVar (exp_join_var n) (S n) true else bad_line
+          else if String.eqb kd "pipeline" then join KJoinCC exp_join_cc 2%nat false
+          else bad_line
+      | _, _, _, _, _, _, _ => bad_line
+      end
+  | _ => bad_line
+  end.
